@@ -14,7 +14,28 @@ YEAR_BOUNDARY = [
 
 OFFSETS = [(0, 0), (0, 30), (0, -30), (5, 45), (-5, -45), (12, 0), (-12, 0), (13, 45),
            (24, 0), (-24, 0), (99, 59), (-99, -59), (1, 0), (-1, 0), (0, 1), (0, -1),
-           (-2, -15), (9, 30), (-3, -30), (0, 59), (0, -59)]
+           (-2, -15), (9, 30), (-3, -30), (0, 59), (0, -59),
+           # small neighbours (-1 and -2 hash alike in CPython), and the far ends of the legal range
+           (-2, 0), (2, 0), (-1, -30), (-2, -30), (0, -2), (0, 2), (99, 0), (-99, 0), (96, 0), (-96, 0),
+           (93, 0), (-93, -30), (98, 30)]
+
+
+def offset_near(rng, tz):
+    """An offset adjacent to tz (an hour or a minute away), or its mirror image, staying legal."""
+    h, mi = tz
+    cands = [(h + 1, mi), (h - 1, mi), (h, mi + 1), (h, mi - 1), (-h, -mi), (h, 0), (h + 2, mi), (h - 2, mi)]
+    ok = [(a, b) for a, b in cands if -99 <= a <= 99 and -59 <= b <= 59 and not (a > 0 and b < 0)
+          and not (a < 0 and b > 0)]
+    return rng.choice(ok) if ok else (0, 0)
+
+
+def offsets_far_apart(rng):
+    """Two legal offsets of opposite sign eight days and more apart (local dates of one instant differ by up to
+    nine days)."""
+    a = rng.choice([99, 99, 98, 97, 96, 95, 93, 90])
+    b = rng.choice([99, 99, 98, 97, 96, 95, 93, 90])
+    ma, mb = rng.choice([0, 0, 59, 30]), rng.choice([0, 0, 59, 30])
+    return ((a, ma), (-b, -mb)) if rng.random() < 0.5 else ((-a, -ma), (b, mb))
 
 
 def year(rng, wide=True):
